@@ -14,7 +14,7 @@ HERE = os.path.dirname(os.path.dirname(os.path.abspath(__file__)))
 CRASH = ("asan", "ubsan", "abort", "signal", "sanitizer", "truncated", "exit", "valgrind")
 ENFORCED = {
     "C12": ("seq", "parse-stable", "open-stable", "input-intact", "hang", "baseline") + CRASH,
-    "C13": ("scon", "scon-live", "leak", "fd-leak", "fd-discipline") + CRASH,
+    "C13": ("scon", "scon-live", "leak", "fd-leak", "fd-discipline", "divergence") + CRASH,
     "C14": ("contract", "hang-parse", "must-fail", "parse-stable") + CRASH,
     "C19": ("cli",) + CRASH,
 }
@@ -351,6 +351,28 @@ def simulate(z, plan, profile=None):
         if c2 is not None and c2[0] in CRASH + ("hang-parse",):
             viol = O.Violation(c2[0], "non-sanitized build, default stack: " + c2[2], plan, step=len(r2.events))
             viol.klass_str = "plain:" + c2[1]
+    if viol is None and "divergence" in enforced and plan.get("knobs", {}).get("differential") \
+            and "/asan/" in z.exe and resp.fatal_class() is None:
+        # The same plan on the non-sanitized -O2 build.  Both builds run the
+        # same sources against the same libraries behind the same seam; what a
+        # step yields may differ only if it depends on an uninitialised
+        # automatic variable (0xFE pattern here, stack residue there), on
+        # evaluation order, or on other undefined behaviour.
+        r2 = z.run_plain(plan)
+        out.baseline_runs += 1
+        if r2.fatal_class() is None and len(r2.events) == len(resp.events):
+            for ea, eb in zip(resp.events, r2.events):
+                sa = (ea.op, ea.outcome, ea.get("r", "-"), ea.get("msg", "-"))
+                sb = (eb.op, eb.outcome, eb.get("r", "-"), eb.get("msg", "-"))
+                if sa != sb:
+                    viol = O.Violation("divergence",
+                                       "step %d %s %s: sanitized build (automatic variables pre-set to 0xFE): %s ; -O2 build: %s"
+                                       % (ea.idx, ea.op, " ".join(ea.args), O.show_sig(sa[1:]), O.show_sig(sb[1:])), plan, step=ea.idx)
+                    viol.klass_str = "divergence:" + ea.op
+                    break
+        elif r2.fatal_class() is not None:
+            out.other = O.Violation("plain-build", r2.fatal_class(), plan)
+            out.other.klass_str = "plain-build:" + str(r2.fatal_class())
     if viol is None and "must-fail" in enforced:
         for ev in resp.events:
             if ev.idx < len(plan["steps"]):
